@@ -54,7 +54,11 @@ package process
 //@    (is(f, WaitForm) ==> kid(WaitForm(f).continuation_e, fsize(f))) &&
 //@    (is(f, ShiftForm) ==> kid(ShiftForm(f).continuation_e, fsize(f))) &&
 //@    (is(f, DropForm) ==> kid(DropForm(f).continuation_e, fsize(f))) &&
-//@    (is(f, PrintForm) ==> kid(PrintForm(f).continuation_e, fsize(f)))
+//@    (is(f, PrintForm) ==> kid(PrintForm(f).continuation_e, fsize(f))) &&
+//@    (is(f, CallForm) ==> (forall i int :: 0 <= i && i < len(CallForm(f).parameters) ==> callArg(addrof(CallForm(f).parameters[i]))))
+// callArg(x): x is an element of the argument list of some call term. (A classification assumed of what the parser
+// builds: argument lists of calls share no storage with the parameter lists of definitions or with provider lists.)
+//@ spec callArg(x *Name) bool
 
 // ---------------------------------------------------------------------------------------------
 // C05: the substructural discipline. lin(f, D, sh): the term f uses every name of D (the domain of the
@@ -449,6 +453,7 @@ package process
 // C09: typechecking is total. Every function reachable from Typecheck is swept: no panic, every loop and
 // recursion has a variant, and the worker hands exactly one verdict to its caller.
 //@ scope C09 Typecheck
+//@ reveal C09
 //@ ghost sent Arr[Ref]int
 
 // printers used in diagnostics and logging
@@ -484,3 +489,17 @@ package process
 //@ contract (*Name).ExplicitPolarityValid
 //@   ensures[C09] C09.polarityChecked: !result ==> n.ExplicitPolarity != nil && n.Type != nil
 //@   pure
+
+// ---- C09: the state the syntax-directed checker runs in. Every type it can reach - in the context, as the provider's
+// type, in the signatures - passed the preliminary checks (is `ready`), so unfolding, printing, comparing and asking
+// for a mode cannot crash; checking a term only fills in type annotations of that term's own names and modes that
+// were unset.
+//@ macro gammaReady(g NamesTypesCtx, D Set[string], V Arr[string]types.LabelledType) bool = forall x string :: has(g, x) ==> ready(g[x].Type, D, V)
+//@ macro paramsReady(ps []Name, D Set[string], V Arr[string]types.LabelledType) bool = forall k int :: 0 <= k && k < len(ps) ==> ready(ps[k].Type, D, V) && !callArg(addrof(ps[k]))
+//@ macro sigmaReady(s FunctionTypesEnv, D Set[string], V Arr[string]types.LabelledType) bool = forall f string :: has(s, f) ==> ready(s[f].Type, D, V) && !is(s[f].Type, types.LabelType) && paramsReady(s[f].Parameters, D, V)
+//@ macro argsFrame() bool = forall x *Name :: isElem(x) && !callArg(x) ==> deref(x) == old(deref(x))
+
+//@ contract interface Form.typecheckForm(self, gamma, sh, providerType, env, sigma, globalEnv)
+//@   requires[C09] readyEnv(dom(env), vals(env)) && gammaReady(gamma, dom(env), vals(env)) && ready(providerType, dom(env), vals(env)) && sigmaReady(sigma, dom(env), vals(env))
+//@   ensures[C09] C09.tcModesKept: modesKept()
+//@   ensures[C09] C09.tcArgsFrame: argsFrame()
